@@ -132,6 +132,26 @@ def run_2d(aa, v, m, salt):
         v.ok(dom.exact(nfs[:, 0] * w + nfs[:, 1], us), "native_for_slim-vs-unmasked_slim")
     v.ok(int(mask.pixels_in_mask) == int(u.sum()), "pixels_in_mask")
 
+    # ---- a mask derived from this one (inversion, in-place edit of a copy) publishes tables for ITS OWN pixels
+    if m.any():
+        inv = mask.invert()
+        mi = ~m
+        v.ok(dom.exact(np.asarray(inv.derive_indexes.native_for_slim), np.argwhere(~mi)), "native_for_slim:derived-mask",
+             lambda: "mask.invert(): got %s want %s" % (np.asarray(inv.derive_indexes.native_for_slim).tolist(), np.argwhere(~mi).tolist()))
+        v.ok(dom.exact(np.asarray(inv.derive_indexes.unmasked_slim), np.flatnonzero(~mi.ravel())), "unmasked_slim:derived-mask")
+        a_inv = aa.Array2D(values=(1.0 + np.arange(n, dtype=float)).reshape(h, w), mask=inv)
+        v.ok(dom.exact(_arr(a_inv.slim), (1.0 + np.arange(n, dtype=float)).reshape(h, w)[~mi]), "Array2D.slim:derived-mask")
+    ed = mask.copy()
+    k0 = int(np.flatnonzero(~flat)[0])
+    ed[k0 // w, k0 % w] = True  # mask one more pixel in place on the copy
+    me = m.copy()
+    me[k0 // w, k0 % w] = True
+    if not me.all():
+        v.ok(dom.exact(np.asarray(ed.derive_indexes.native_for_slim), np.argwhere(~me)), "native_for_slim:edited-mask",
+             lambda: "copy edited in place: got %s want %s" % (np.asarray(ed.derive_indexes.native_for_slim).tolist(), np.argwhere(~me).tolist()))
+        v.ok(dom.exact(np.asarray(ed.derive_indexes.masked_slim), np.flatnonzero(me.ravel())), "masked_slim:edited-mask")
+    v.ok(dom.exact(np.asarray(mask.derive_indexes.native_for_slim), ref_nfs), "native_for_slim:source-changed-by-derivation")
+
     for name, vals1 in labellings(n, salt):
         vals = vals1.reshape(h, w)
         garbage = np.where(m, 77.0 + np.arange(n).reshape(h, w), vals)
